@@ -523,8 +523,12 @@ impl LanguageServer for Backend {
             }
 
             doc_lock.retain(|url, _| {
-                // `change.uri` could be a directory so use `starts_with` instead of `==`.
-                let to_remove = url.as_str().starts_with(change.uri.as_str());
+                // `change.uri` could be a directory, so a document below it matches as well, but
+                // only at a path separator: `notes.md` is not a parent of `notes.mdx`.
+                let deleted = change.uri.as_str();
+                let to_remove = url.as_str().strip_prefix(deleted).is_some_and(|rest| {
+                    rest.is_empty() || rest.starts_with('/') || deleted.ends_with('/')
+                });
 
                 if to_remove {
                     urls_to_clear.push(url.clone());
